@@ -182,6 +182,10 @@ func fpInto(fp Fingerprint, fn *ssa.Function, home *ssa.Package, depth int, seen
 					ks = append(ks, g)
 				}
 			}
+			// text built only for a result's Details does not take part in the verdict
+			if (strings.HasPrefix(name, "fmt.Sprint") || name == "strings.Join" || strings.HasPrefix(name, "strconv.")) && onlyFeedsDetails(x, 0) {
+				return
+			}
 			fp.add("call " + name + "(" + strings.Join(ks, ",") + ")")
 		case *ssa.BinOp:
 			switch x.Op {
@@ -253,7 +257,8 @@ func fpInto(fp Fingerprint, fn *ssa.Function, home *ssa.Package, depth int, seen
 				if k, ok := x.Val.(*ssa.Const); ok && k.Value != nil {
 					n, _ := constant.Int64Val(constant.ToInt(k.Value))
 					if n >= 0 && int(n) < len(statusNames) {
-						fp.add("status " + statusNames[n])
+						// which statuses a function can produce, not how many return statements spell them
+						fp["status "+statusNames[n]] = 1
 					}
 				}
 			}
@@ -319,4 +324,33 @@ func returnedDirectly(call *ssa.Call) bool {
 		}
 	}
 	return false
+}
+
+// onlyFeedsDetails: every use of v (through string concatenation and further
+// formatting calls) ends in a store to a field named Details.
+func onlyFeedsDetails(v ssa.Value, depth int) bool {
+	if depth > 4 || v.Referrers() == nil || len(*v.Referrers()) == 0 {
+		return false
+	}
+	for _, ref := range *v.Referrers() {
+		switch x := ref.(type) {
+		case *ssa.DebugRef:
+		case *ssa.Store:
+			fa, ok := x.Addr.(*ssa.FieldAddr)
+			if !ok || x.Val != v || fieldVar(fa).Name() != "Details" {
+				return false
+			}
+		case *ssa.BinOp:
+			if x.Op != token.ADD || !onlyFeedsDetails(x, depth+1) {
+				return false
+			}
+		case *ssa.MakeInterface:
+			if !onlyFeedsDetails(x, depth+1) {
+				return false
+			}
+		default:
+			return false
+		}
+	}
+	return true
 }
